@@ -13,6 +13,12 @@ CLAIMED = {
  "C06": {"ref": "DESIGN.md section 3 C06",
          "text": "Generated sequences of every message protocol.Write can emit go through a real protocol.Writer goroutine, a simulated connection with seeded segmentation/back-pressure and a real protocol.Reader goroutine; a wire tap feeds an independent codec. Oracles: storrent decodes its own stream back to the same sequence; the independent strict decoder cuts the byte stream into the same frames and (byte-identical or strictly decoded) the same content; the independent encoder's bytes for the same messages, partly handed over as pre-read 'init' bytes, decode in storrent to the same sequence under any cut pattern.",
          "note": NOTE},
+ "C07": {"ref": "DESIGN.md section 3 C07",
+         "text": "Plain and MSE handshakes between storrent and storrent, storrent and an independent MSE/BitTorrent implementation (both roles), with per-role seeded randomness so that the bytes each side sends are a function of the seed: every experiment is executed twice in one run, once with whole-write delivery and once under seeded segmentation of both directions (coalesced, random cuts, byte-at-a-time, 1-7 byte segments, a single cut at a drawn offset, delay and jitter). Oracles: the outcome tuple of each storrent end (success, info-hash, peer id, capability bits, cipher mode, bytes handed to the message layer) is identical in both executions; both ends agree with each other and with the plan; early bytes glued after the handshake (inside IA, glued to the handshake, or sent right after) arrive exactly once, in order, with nothing else.",
+         "note": NOTE},
+ "C08": {"ref": "DESIGN.md section 3 C08",
+         "text": "(A) the 64 x 64 x 2 table of option pairs and handshake kinds is enumerated by run index for storrent<->storrent (complete every 13654 runs of the scenario), plus storrent against the independent MSE peer with every crypto_provide/crypto_select value including ones not offered; oracle: an independent four-line policy function - each completed connection is in a mode both ends permit, both ends report the same mode, a wire tap sees payload in clear iff the mode is plaintext, a select that was not offered is refused, default options interoperate with the independent implementation (independent key derivation). (C) crypto.Conn transparency: concurrent writers with sizes around the 32 KiB staging buffer, arbitrary read sizes, underlying short writes and write errors; the received plaintext is a concatenation of the accepted parts of the writes and errors are sticky. The dial-policy part (B of the design) is exercised by the system scenarios.",
+         "note": NOTE},
 }
 
 PENDING = "check not built yet in this session (design in DESIGN.md section 3); not claimed until its scenario and oracles exist"
@@ -20,5 +26,5 @@ NOT_APPLICABLE = {
  "C13": "pure function of an input byte string (ReadTorrent/ReadMagnet/WriteTorrent): no schedule, clock, fault or second party for a simulator to own; see DESIGN.md section 4",
  "C20": "pure function of the file table and the lookup path: no schedule, clock, fault or second party; see DESIGN.md section 4",
 }
-for p in ["C02","C05","C07","C08","C09","C10","C11","C12","C14","C15","C16","C17","C18","C19"]:
+for p in ["C02","C05","C09","C10","C11","C12","C14","C15","C16","C17","C18","C19"]:
     NOT_APPLICABLE[p] = PENDING
